@@ -204,16 +204,20 @@ theorem linkedAsOf_congr {A B : List ARow} {tbl : Nat} {link : List Int} {x : Na
   · rintro ⟨a, h0, h1, h2, h3, h4⟩; exact ⟨a, (h a (hle a h4)).1 h0, h1, h2, h3, h4⟩
   · rintro ⟨a, h0, h1, h2, h3, h4⟩; exact ⟨a, (h a (hle a h4)).2 h0, h1, h2, h3, h4⟩
 
+/-- `addAssoc` keeps every row not stamped `T` (a row stamped `T` may be replaced by a later change
+of the same link within the transaction) -/
 theorem mem_addAssoc_of_mem {a : List ARow} {T : Nat} {pending : List (Nat × Op × List Int)} :
-    ∀ x ∈ a, x ∈ (addAssoc a T pending).1 := by
+    ∀ x ∈ a, x.tx ≠ T → x ∈ (addAssoc a T pending).1 := by
   unfold addAssoc
   generalize false = b
   induction pending generalizing a b with
-  | nil => intro x hx; exact hx
+  | nil => intro x hx _; exact hx
   | cons p ps ih =>
-    intro x hx
+    intro x hx hne
     simp only [List.foldl_cons]
-    exact ih _ x (List.mem_append.2 (Or.inl hx))
+    refine ih _ x (List.mem_append.2 (Or.inl (List.mem_filter.2 ⟨hx, ?_⟩))) hne
+    simp only [Bool.not_eq_true', decide_eq_false_iff_not]
+    exact fun h => hne h.2.2
 
 /-! ## the state machine -/
 
